@@ -581,6 +581,11 @@ def _newton_sym(n, uname, local):
             return _newton_sym(n.func.value, uname, local) * _newton_sym(n.args[0], uname, local)
         if f.split('.')[-1] == 'diags' and n.args:
             return _newton_sym(n.args[0], uname, local)
+        if f.split('.')[-1] in ('rfft', 'irfft', 'fft', 'ifft', 'rfft2', 'irfft2', 'fft2', 'ifft2', 'rfftn', 'irfftn', 'fftn', 'ifftn') and '.fft.' in '.' + f and n.args:
+            # a Fourier transform is linear and the operators between the pair are diagonal: transparent in the element-wise view
+            return _newton_sym(n.args[0], uname, local)
+        if f in ('self.fft.forward', 'self.fft.backward') and n.args:
+            return _newton_sym(n.args[0], uname, local)
         if f.split('.')[-1] in ('eye', 'identity'):
             return sp.Integer(1)
         if f.split('.')[-1] == 'sqrt' and len(n.args) == 1:
@@ -911,7 +916,7 @@ def r12(ctx, R):
                 if isinstance(e, ast.Name):
                     prev = [x.value for x in body[:body.index(r)] if isinstance(x, ast.Assign) and len(x.targets) == 1 and isinstance(x.targets[0].value if isinstance(x.targets[0], ast.Subscript) else x.targets[0], ast.Name) and (x.targets[0].value if isinstance(x.targets[0], ast.Subscript) else x.targets[0]).id == e.id]
                     e = prev[-1] if prev else None
-                if e is not None and not any(isinstance(c, ast.Call) and (c.func.attr if isinstance(c.func, ast.Attribute) else getattr(c.func, 'id', '')) in (_DIRECT | {'dtype_u', 'u_exact', 'solve_system'}) for c in ast.walk(e)) and any(isinstance(m, ast.Name) and m.id in ('rhs', 'd') for m in ast.walk(e)):
+                if e is not None and not any(isinstance(c, ast.Call) and (c.func.attr if isinstance(c.func, ast.Attribute) else getattr(c.func, 'id', '')) in (_DIRECT | {'dtype_u', 'u_exact', 'solve_system'}) for c in ast.walk(e)):
                     closed.append(e)
             if not sites and not closed:
                 continue
